@@ -317,3 +317,22 @@ Proof.
   rewrite (list_summ (writes p) p); [exact Ho| |exact Hs].
   apply Forall_forall. intros. apply stmt_summ_all.
 Qed.
+
+(* ------------------------------------------------------------------ user-visible state *)
+Lemma not_slot_not_written : forall p a,
+  writes_only_dialect_slots p = true -> is_dialect_slot a = false -> mem a (writes p) = false.
+Proof.
+  intros p a Hw Ha. unfold writes_only_dialect_slots in Hw. rewrite forallb_forall in Hw.
+  destruct (mem a (writes p)) eqn:E; [|reflexivity]. unfold mem in E. apply existsb_exists in E.
+  destruct E as [x [Hin Hx]]. apply String.eqb_eq in Hx. subst x. rewrite (Hw a Hin) in Ha. discriminate.
+Qed.
+
+Theorem user_visible_unchanged : forall truth p out,
+  writes_only_dialect_slots p = true ->
+  forall st0 hist a, is_dialect_slot a = false -> snd (run truth p out st0 hist) a = st0 a.
+Proof.
+  intros truth p out Hw st0 hist. revert st0. induction hist as [|d h IH]; intros st0 a Ha; simpl; [reflexivity|].
+  destruct (run truth p out (exec truth p st0 d) h) as [os stf] eqn:Er. simpl.
+  specialize (IH (exec truth p st0 d) a Ha). rewrite Er in IH. simpl in IH. rewrite IH.
+  apply prog_frame. apply not_slot_not_written; assumption.
+Qed.
